@@ -56,6 +56,10 @@ def X(a) -> XReal:
         if a.sort == "B":
             return XReal(tm.ite(a, ONE, ZERO))
         return XReal(a)
+    if isinstance(a, (cx.SymReal, cx.SymInt)):
+        return XReal(a.t)
+    if isinstance(a, cx.SymBool):
+        return XReal(tm.ite(a.t, ONE, ZERO))
     return lift_x(a)
 
 
